@@ -102,14 +102,18 @@ class MultiObjectiveProgressTracker(ProgressTracker):
         problem = self.problem
         for ind in self.evaluator.evaluate_async(problem, individuals):
             not_dominated = len(self.pareto_front) == 0 or not self.is_dominated(ind, self.pareto_front)
-            if not_dominated:
+            # a new best strictly improves on everything seen so far: an individual that only ties with the front, or a
+            # survivor that is registered again with a later generation, is no improvement (and is not added twice)
+            fit = ind.get_fitness(problem)
+            is_best = all(problem.is_better(fit, old.get_fitness(problem)) for old in self.pareto_front)
+            if not_dominated and not any(old is ind for old in self.pareto_front):
                 new_pareto_front = [ind]
                 for old in self.pareto_front:
                     if not self.is_dominated(old, new_pareto_front):
                         new_pareto_front.append(old)
                 self.pareto_front = new_pareto_front
             for recorder in self.recorders:
-                recorder.register(tracker=self, individual=ind, problem=problem, is_best=not_dominated)
+                recorder.register(tracker=self, individual=ind, problem=problem, is_best=is_best)
 
     def get_best_individuals(self) -> list[Individual]:
         return self.pareto_front
